@@ -668,6 +668,8 @@ def handle_cells(case):
 def in_fragment(case, store, op):
     """mirror of Model.safe_op: sub-streams are receivers of separate_out / copy_flow / scale only; a history with aliases stops once a linked
     MultiStream is out of step with its rows (phases tuple and rows list of different lengths)"""
+    if op[0] == 'copy_flow' and cancelling_copy(store, op):
+        return False
     if not case.get('handles'):
         return True
     tmo = env()['tmo']
@@ -688,6 +690,19 @@ def in_fragment(case, store, op):
         d, s = op[1], op[2]
         return not (d < len(cells) and s < len(cells) and cells[d] == cells[s])
     return True
+
+def cancelling_copy(store, op):
+    """Stream.copy_flow(IDs, remove=True) from a MultiStream of another package in which some chemical's phase flows
+    cancel to a zero total (needs negative flows, outside the property's quantifier): the code drops such a chemical
+    from the index list when the receiver does not list it and then removes by the shortened list, so its phase rows
+    stay; the model removes by the full list (totals agree, rows differ).  Such histories are cut here."""
+    tmo = env()['tmo']
+    d, s, ids, remove = op[1], op[2], op[3], op[4]
+    if ids is None or not remove or max(d, s) >= len(store): return False
+    if not isinstance(store[s], tmo.MultiStream) or isinstance(store[d], tmo.MultiStream): return False
+    if store[d].chemicals is store[s].chemicals: return False
+    arr = np.asarray(store[s].imol.data.to_array(), float)
+    return bool(((arr.sum(0) == 0) & (arr != 0).any(0)).any())
 
 def alias_mix_class(case, store, op):
     """two classes of mixes over shared flow data that are outside the modelled fragment (findings)"""
